@@ -1054,6 +1054,10 @@ def _isnumf(o):
         and not isinstance(o, bool) or isinstance(o, bool)
 
 
+_INTOPS = {z3.fpLT: lambda a, b: a < b, z3.fpLEQ: lambda a, b: a <= b,
+           z3.fpGT: lambda a, b: a > b, z3.fpGEQ: lambda a, b: a >= b}
+
+
 class SymFloat:
     """iv: optional (lo, hi) python floats known to bound the value
     (propagated through multiplication/division by concrete finite numbers,
@@ -1136,6 +1140,10 @@ class SymFloat:
     def _cmp(s, o, f):
         if not _isnumf(o):
             return NotImplemented
+        if f in _INTOPS and hasattr(s, 'exact_cmp'):
+            r = s.exact_cmp(o, _INTOPS[f])
+            if r is not NotImplemented:
+                return r
         return wrapbool(f(s.t, tofloat(o)))
 
     def __lt__(s, o):
@@ -1224,6 +1232,8 @@ def float_ceil_int(x):
 
 
 def float_trunc_int(x):
+    if hasattr(x, 'exact_trunc'):
+        return x.exact_trunc()
     t = tofloat(x)
     if ENG.branch(z3.Or(z3.fpIsNaN(t), z3.fpIsInf(t))):
         if ENG.branch(z3.fpIsNaN(t)):
